@@ -4,7 +4,7 @@ import json, subprocess
 
 CHECKS = {
  "C01": ("exploration", "runtime monitoring: hostile workload in child worker processes; crash/fatal/hang/memory observers, structured-error oracle, scanner step-count hook, CPU-time scaling monitor (n vs 4n) for the phases after the scanner",
-         "Every build runs in a worker process; panics are caught per case, process deaths (stack overflow, runtime throw, memory cap) are attributed to the case in flight, hangs to a watchdog with isolated re-run; the work after the scanner is observed as CPU time of the build on 52 families of documents that repeat one construct n and 4n times (violation: more than 15 CPU-seconds, or more than 4 CPU-seconds and more than 24 times the smaller document); the scanner's work is counted through the step hook (bound 3*len+64 per scan). Exploration level: held on the executions produced (hostile byte strings, all macro digraphs on <=3 macros, all include digraphs on <=3 files, root specials), not a proof of totality.", "§3 C01"),
+         "Every build runs in a worker process; panics are caught per case, process deaths (stack overflow, runtime throw, memory cap) are attributed to the case in flight, hangs to a watchdog with isolated re-run; the work after the scanner is observed as CPU time of the build on 52 families of documents that repeat one construct n and 4n times (violation: more than 8 CPU-seconds, or more than 4 CPU-seconds and more than 24 times the smaller document); the scanner's work is counted through the step hook (bound 3*len+64 per scan). Exploration level: held on the executions produced (hostile byte strings, all macro digraphs on <=3 macros, all include digraphs on <=3 files, root specials), not a proof of totality.", "§3 C01"),
  "C04": ("exploration", "runtime monitoring: reference JDoc-Exchange shape validator over every accepted build of a hostile/targeted workload; CPU-time scaling monitor for the serialisers",
          "Every accepted build is serialised with ToJson/ToJsonIndent; outputs are parsed (order-preserving), compared up to whitespace and validated against a shape validator written from the JDoc Exchange 2.0.0 layout; every project outside the mutant stream is built again and the two accessors are called concurrently on that one catalog (delays at the yield hooks), same oracle; a worker that dies or hangs is a violation.", "§3 C04"),
  "C05": ("exploration", "runtime monitoring: cross-reference closure checker over serialised catalogs",
